@@ -1181,6 +1181,42 @@ func (m *Model) ruleREGISTRY(r *Results) {
 	if nClose == 0 {
 		r.undecided(rule, "Close", "-", "no bucket method releases the registry reference")
 	}
+	// a bucket method that deletes the bucket's files first shuts the shared store down,
+	// unconditionally: other handles must not keep working on a deleted store
+	nDel := 0
+	for _, fn := range m.Funcs {
+		if fn.Parent() != nil || m.methodOwner(fn) != a.BucketType {
+			continue
+		}
+		var del, shut ssa.CallInstruction
+		m.eachCall(fn, func(c ssa.CallInstruction) {
+			callee := c.Common().StaticCallee()
+			if callee == nil || !m.inPkg(callee) {
+				return
+			}
+			reach := m.reachableLocal(callee)
+			if m.alwaysCalls(callee, a.ShutdownFn, 0) {
+				if shut == nil {
+					shut = c
+				}
+				if !m.deletesFiles(callee) {
+					return
+				}
+			}
+			if m.deletesFiles(callee) && !reach[a.ShutdownFn] {
+				del = c
+			}
+		})
+		if del == nil {
+			continue
+		}
+		nDel++
+		ok := shut != nil && (shut.Block() == del.Block() && indexIn(shut.Block(), shut) < indexIn(del.Block(), del) || shut.Block() != del.Block() && shut.Block().Dominates(del.Block()))
+		r.check(ok, rule, m.declName(fn)+" / store shut down before its files are deleted", m.instrPos(del), "the shutdown routine runs on every path before the files are deleted", "the bucket's files are deleted on a path on which the shared store has not been shut down: handles that are still open keep reading and writing a deleted database, and their feeds and timer keep running")
+	}
+	if nDel == 0 {
+		r.undecided(rule, "delete", "-", "no bucket method deletes the bucket's files")
+	}
 	r.floor(rule, 6)
 }
 
@@ -1374,4 +1410,32 @@ func (m *Model) zeroGuardedCaller(lf *ssa.Function, e orderEdge) (*ssa.Function,
 		}
 	}
 	return guard, gp
+}
+
+// alwaysCalls: every path through f (from entry to a return) calls target, directly or through a
+// callee for which the same holds.
+func (m *Model) alwaysCalls(f, target *ssa.Function, depth int) bool {
+	if f == target {
+		return true
+	}
+	if f == nil || depth > 3 || !m.inPkg(f) || len(f.Blocks) == 0 {
+		return false
+	}
+	var through []*ssa.BasicBlock
+	m.eachCall(f, func(c ssa.CallInstruction) {
+		if _, isGo := c.(*ssa.Go); isGo {
+			return
+		}
+		if _, isDefer := c.(*ssa.Defer); isDefer {
+			return
+		}
+		if callee := c.Common().StaticCallee(); callee != nil && m.alwaysCalls(callee, target, depth+1) {
+			through = append(through, c.Block())
+		}
+	})
+	if len(through) == 0 {
+		return false
+	}
+	ok, _ := mustPassThrough(f, through, nil)
+	return ok
 }
